@@ -2,5 +2,5 @@
 # Build the static Coq development (substrate, models, proofs, property files) from files on disk.
 set -e
 cd "$(dirname "$0")/coq"
-coq_makefile -f _CoqProject -o Makefile >/dev/null
+./mkproject.sh
 timeout 3000 make -j16
